@@ -31,6 +31,10 @@ type Obligation struct {
 	Func      string
 	ModelVars []ModelVar
 	Claimed   bool
+	// for replay: the terms of the results and of the byte heap at the exit this obligation speaks about
+	ResTerms []Val
+	ExitE    string
+	EntryE   string
 }
 
 type ModelVar struct {
